@@ -77,7 +77,7 @@ Variable s0 : sess.
 Lemma nw_queue_for_send s t hdr body ir ok : NWr s0 s -> NWr s0 (queue_for_send s t hdr body ir ok).
 Proof. intros H. unfold queue_for_send. nw_go. Qed.
 Lemma nw_enqueue_bytes s m : NWr s0 s -> NWr s0 (enqueue_bytes_and_send s m).
-Proof. intros H. unfold enqueue_bytes_and_send. apply nw_send_queued, nw_enqueue; assumption. Qed.
+Proof. intros H. unfold enqueue_bytes_and_send. apply nw_send_queued, nw_enqueue. destruct (is_logged_on (s_st s)); [assumption | apply nw_drop_queued; assumption]. Qed.
 Lemma nw_drop_and_send s t body ir : NWr s0 s -> NWr s0 (drop_and_send_in_reply_to s t body ir).
 Proof. intros H. unfold drop_and_send_in_reply_to. nw_go. Qed.
 Lemma nw_drop_and_reset s : NWr s0 s -> NWr s0 (drop_and_reset s).
